@@ -537,3 +537,165 @@ class ObjectPlainDeserialize:
     # reachable in this configuration need an invariant: 0 = fields, 5 / 6 = the two loops of
     # the `elif len(data) != fields_count` branch
     loops = {0: "_inv0", 5: "_inv_unexpected", 6: "_inv_extras"}
+
+
+# ---------------------------------------------------------------------------------------------
+# ObjectMethod.deserialize, configuration 2: validators, no aggregate field, no InitVar --
+# the gating of appendix A.3 (C10): which validators are handed to `validate`, on what, and when
+# the object is constructed.  The structural part (loops 0, 5, 6) reuses the invariants of
+# configuration 1.
+
+from pyvc.calls import _args as _call_args  # noqa: E402
+from pyvc.symexec import Heap as _Heap  # noqa: E402
+
+VALIDATE_OK = z3.Function("validate_ok", Val, Val, T.B)  # validate(obj, validators) returns obj
+VALIDATE_ERR = z3.Function("validate_err", Val, Val, Val)
+MOCK = z3.Function("validator_mock", Val, Val, Val)
+
+
+def _call_validate(ex, node, st):
+    """validate(obj, validators, init, aliaser=...): external (apischema.validation.validators);
+    returns obj or raises a ValidationError; the call is recorded in ghost state"""
+    outs = []
+    for s, k, vs in ex.eval_many(list(node.args) + [kw.value for kw in node.keywords], st):
+        if k == "exc":
+            outs.append((s, k, vs))
+            continue
+        obj, lst = ex.val_of(vs[0]), ex.val_of(vs[1])
+        calls = list(s.ghost.get("validate_calls", []))
+        calls.append((obj, lst, dict(s.heap)))
+        s.ghost["validate_calls"] = calls
+        ok = s.fork().assume(VALIDATE_OK(obj, lst))
+        ko = s.fork().assume(z3.Not(VALIDATE_OK(obj, lst)))
+        if ex.feasible(ok):
+            outs.append((ok, "val", sv_val(obj)))
+        if ex.feasible(ko):
+            e = VALIDATE_ERR(obj, lst)
+            ko.assume(cls(e) == K("ValidationError"), T.alloc0[e])
+            outs.append((ko, "exc", e))
+    return outs
+
+
+def _call_mock(ex, node, st):
+    outs = []
+    for s, k, vs in ex.eval_many(node.args, st):
+        if k == "exc":
+            outs.append((s, k, vs))
+            continue
+        outs.append((s, "val", sv_val(MOCK(ex.val_of(vs[0]), ex.val_of(vs[1])))))
+    return outs
+
+
+def _call_construct(ex, node, st):
+    outs = []
+    for s, k, vs in ex.eval_many(node.args, st):
+        if k == "exc":
+            outs.append((s, k, vs))
+            continue
+        s.ghost["construct_calls"] = s.ghost.get("construct_calls", 0) + 1
+        ctor = _Heap(ex, s).attr(ex.val_of(s.env["self"]), "constructor")
+        outs.append((s, "val", sv_val(CONSTRUCTED(ctor, ex.val_of(vs[0])))))
+    return outs
+
+
+def deps(v):
+    return A("dependencies")[v]
+
+
+@contract(f"{M}:ObjectMethod.deserialize#validators-gating", props=["C10", "C03"])
+class ObjectValidatorsDeserialize(ObjectPlainDeserialize):
+    kinds = dict(
+        ObjectPlainDeserialize.kinds,
+        **{
+            "self.validators": "tuple",
+            "self.fields": "tuple",
+            "invalid_names": "set",
+            "self.post_init_modified": "set",
+            "validators": "list",
+            "field_errors": "dict",
+            "aliases": "dict",
+            "invalid_fields": "set",
+            "v.dependencies": "set",
+        },
+    )
+    call_overrides = {"validate": _call_validate, "ValidatorMock": _call_mock, "self.constructor.construct": _call_construct}
+    shards = 16
+    tier = "thorough"  # ~1950 obligations over 170 paths (2.5 min on 16 cores): not part of the quick tier
+
+    def requires(self, c):
+        s = c.self
+        base = [r for r in ObjectPlainDeserialize.requires(self, c)]
+        # replace "no validator" by "some validators, no InitVar parameter"
+        V = c.attr0(s, "validators")
+        j = z3.Int("j")
+        pim = c.attr0(s, "post_init_modified")
+        base = [r for r in base if "validators" not in str(r)[:4000] or "llen0" not in str(r)[:4000]]
+        return base + [
+            # the gating logic does not depend on how unexpected properties / object constraints are
+            # handled (proved in configuration 1); fixing them keeps this proof to the gating paths
+            c.attr0(s, "additional_properties") == T.True_,
+            c.attr0(s, "typed_dict") == T.False_,
+            c.llen0(c.attr0(s, "constraints")) == 0,
+            isinst(V, "tuple"),
+            c.llen0(V) >= 1,
+            isinst(c.attr0(s, "init_defaults"), "tuple"),
+            c.llen0(c.attr0(s, "init_defaults")) == 0,
+            z3.Or(cls(pim) == K("set"), cls(pim) == K("frozenset")),
+            T.forall([j], z3.Implies(z3.And(j >= 0, j < c.llen0(V)), z3.Or(cls(deps(c.lget0(V, j))) == K("set"), cls(deps(c.lget0(V, j))) == K("frozenset"))), patterns=[c.lget0(V, j)]),
+        ]
+
+    def ensures(self, c):
+        s, data, F, AA, D, disc = self._terms(c)
+        n = c.llen0(F)
+        V = c.attr0(s, "validators")
+        calls = c.st.ghost.get("validate_calls", [])
+        nctor = c.st.ghost.get("construct_calls", 0)
+        shape = self._shape(c)
+        out = {}
+        if not calls:
+            out["C10: validate is not called only when the datum is not even an object"] = z3.Not(shape)
+            return out
+        obj, lst, heap_at_call = calls[-1]
+        values = c.local_val("values")
+        x = z3.Const("vx", Val)
+        k = z3.Const("vk", Val)
+        j = z3.Int("vj")
+        in_V = lambda t: z3.Exists([j], z3.And(j >= 0, j < c.llen0(V), c.lget0(V, j) == t))  # noqa: E731
+        llen_c, lget_c = heap_at_call.get("llen", T.heap0("llen")), heap_at_call.get("lget", T.heap0("lget"))
+        dhas_c = heap_at_call.get("dhas", T.heap0("dhas"))
+        in_lst = lambda t: z3.Exists([j], z3.And(j >= 0, j < llen_c[lst], lget_c[lst][j] == t))  # noqa: E731
+        provided = lambda t: z3.Exists([k], z3.And(dhas0[deps(t)][k], dhas_c[values][k]))  # noqa: E731  -- depends on a field present in the datum
+        errs = c.local_val("field_errors")
+        has_error = z3.Or(z3.And(errs != T.None_, c.dlen(errs) != 0), z3.Not(S.all_hold(c.attr0(s, "constraints"), D)))
+        invalid_name = lambda nm: z3.Exists([j], z3.And(j >= 0, j < n, name_(F, j) == nm, errs != T.None_, dhas_c[errs][alias(F, j)]))  # noqa: E731
+        pim = c.attr0(s, "post_init_modified")
+        blocked = lambda t: z3.Exists([k], z3.And(dhas0[deps(t)][k], z3.Or(dhas0[pim][k], invalid_name(k))))  # noqa: E731
+        out["C10: validate is called exactly once"] = z3.BoolVal(len(calls) == 1)
+        out["C10: a validator is handed to validate only if it is a validator of the class one of whose dependencies was provided (not defaulted)"] = T.forall(
+            [x], z3.Implies(in_lst(x), z3.And(in_V(x), provided(x))), patterns=[in_V(x)]
+        )
+        if "invalid_fields" in c.st.env:
+            # error path: the code's own intermediate sets are characterised one by one
+            IF = c.local_val("invalid_fields")
+            sel = c.local_val("validators")
+            in_sel = lambda t: z3.Exists([j], z3.And(j >= 0, j < llen_c[sel], lget_c[sel][j] == t))  # noqa: E731
+            meets_IF = lambda t: z3.Exists([k], z3.And(dhas0[deps(t)][k], dhas_c[IF][k]))  # noqa: E731
+            out["C10: with a structural error the object is NOT constructed and the validators run on a partial mock of the deserialized fields"] = z3.And(
+                z3.BoolVal(nctor == 0), obj == MOCK(c.attr0(c.attr0(s, "constructor"), "cls"), values), has_error
+            )
+            out["C10: the set of invalid fields is the post-init modified fields plus the NAMES of the fields whose alias carries an error"] = T.forall(
+                [k], dhas_c[IF][k] == z3.Or(dhas0[pim][k], invalid_name(k)), patterns=[dhas_c[IF][k]]
+            )
+            out["C10: the candidate validators are validators of the class with a provided dependency"] = T.forall([x], z3.Implies(in_sel(x), z3.And(in_V(x), provided(x))), patterns=[in_V(x)])
+            out["C10: every validator of the class with a provided dependency is a candidate"] = T.forall([x], z3.Implies(z3.And(in_V(x), provided(x)), in_sel(x)), patterns=[in_V(x)])
+            out["C10: a validator is run only if it is a candidate none of whose dependencies is invalid"] = T.forall([x], z3.Implies(in_lst(x), z3.And(in_sel(x), z3.Not(meets_IF(x)))), patterns=[in_V(x)])
+            out["C10: every candidate none of whose dependencies is invalid is run (unrelated invalid fields do not prevent it)"] = T.forall([x], z3.Implies(z3.And(in_sel(x), z3.Not(meets_IF(x))), in_lst(x)), patterns=[in_V(x)])
+        out["C10: without structural error the object is constructed once from the deserialized fields and every validator with a provided dependency runs on it"] = z3.Implies(
+            z3.Not(has_error),
+            z3.And(z3.BoolVal(nctor == 1), obj == CONSTRUCTED(c.attr0(s, "constructor"), values), T.forall([x], z3.Implies(z3.And(in_V(x), provided(x)), in_lst(x)), patterns=[in_V(x)])),
+        )
+        if c.is_raise:
+            out["C10: with a structural error the deserialization always fails (the validators' errors are merged into it)"] = z3.Implies(has_error, isinst(c.exc, "ValidationError"))
+        if c.is_return:
+            out["C10: a value is returned only without structural error and when validation succeeds"] = z3.And(z3.Not(has_error), VALIDATE_OK(obj, lst), c.result == obj)
+        return out
